@@ -237,8 +237,8 @@ def prepare(hyps: List[z3.ExprRef], goal: z3.ExprRef) -> Tuple[List[z3.ExprRef],
     return out, stats
 
 
-NATIVE_MS = 60000  # stage 1 is bounded by the number of instances (deterministic), not by time
-QI_MAX = int(os.environ.get("VERIF_QI_MAX", "50000"))
+NATIVE_MS = 30000  # stage 1 is bounded by the number of instances (deterministic), not by time
+QI_MAX = int(os.environ.get("VERIF_QI_MAX", "8000"))
 
 
 def check(hyps: List[z3.ExprRef], goal: z3.ExprRef, timeout_ms: int = 10000, allow_stage2: bool = True, skip_stage1: bool = False):
@@ -272,7 +272,7 @@ def check(hyps: List[z3.ExprRef], goal: z3.ExprRef, timeout_ms: int = 10000, all
     # stage 1b: the same with a ten times larger instance bound (guards against a verdict that flips on a
     # harmless edit because a proof needs a few more instances)
     s = z3.Solver()
-    s.set("timeout", 6000)
+    s.set("timeout", 10000)
     s.set("smt.mbqi", False)
     s.set("smt.qi.max_instances", QI_MAX * 10)
     for h in hyps:
